@@ -312,6 +312,11 @@ class Mini:
                 return -v
             if isinstance(e.op, ast.UAdd):
                 return +v
+            if isinstance(e.op, ast.Invert):
+                try:
+                    return ~v
+                except TypeError as ex:
+                    raise InterpRaise("TypeError", str(ex), e)
             raise AnalysisError(f"miniinterp: unary operator in {norm(e)}")
         if isinstance(e, ast.BoolOp):
             if isinstance(e.op, ast.And):
@@ -329,6 +334,12 @@ class Mini:
             return v
         if isinstance(e, ast.Compare):
             left = self.ev(e.left, env)
+            if len(e.ops) == 1:
+                # a single comparison returns whatever the operands' comparison returns (arrays compare entry-wise)
+                try:
+                    return CMPOPS[type(e.ops[0])](left, self.ev(e.comparators[0], env))
+                except TypeError as ex:
+                    raise InterpRaise("TypeError", str(ex), e)
             for op, c in zip(e.ops, e.comparators):
                 right = self.ev(c, env)
                 f = CMPOPS.get(type(op))
